@@ -120,7 +120,33 @@ def order(ctx, rule="C13.set-order"):
     ctx.floor(rule, 2)
 
 
+def options(ctx, rule="C13.options"):
+    ctx.explain(f"{rule}: BaseEngine.get_tdm_options honours the space_unroll run option whatever state the program is "
+                "in: the call program.space_unroll(...) is control-dependent only on the option and on the absence of a "
+                "cached space-unrolled circuit, program.unroll(...) only on the option being off and the program being "
+                "rolled; shots reach both calls.")
+    f = ctx.tree.func("engine.py", "BaseEngine.get_tdm_options")
+    cfg = cfg_of(f.node)
+    for meth, allowed in (("space_unroll", ("space_unroll", "space_unrolled_circuit")),
+                          ("unroll", ("space_unroll", "is_unrolled"))):
+        calls = [n for n in walk_no_nested(f.node) if isinstance(n, ast.Call) and dotted(n.func) == f"program.{meth}"]
+        ctx.require(calls, f"get_tdm_options no longer calls program.{meth}")
+        c = calls[0]
+        conds = cfg.branch_conditions(cfg.node_of_expr(c)[0])
+        tests = [ast.unparse(cfg.node(h).ast) for h, lab in conds if cfg.node(h).kind == "if"]
+        foreign = [t for t in tests if not any(a in t for a in allowed)]
+        opt = any("space_unroll" in t and "space_unrolled_circuit" not in t for t in tests)
+        ok = not foreign and opt
+        ctx.ob(rule, f.site, ok, "" if ok else f"program.{meth}() is additionally conditional on {foreign or tests}: the "
+               "space_unroll option is ignored for a program in that state", role=f"honours:{meth}", line=c.lineno)
+        d = derives(f.node, c.keywords[0].value if c.keywords else (c.args[0] if c.args else ast.Constant(value=None)))
+        ok = any("shots" in str(x) for x in d.consts) or "shots" in {x.var for x in d.defs}
+        ctx.ob(rule, f.site, ok, "" if ok else f"the number of shots does not reach program.{meth}", role=f"shots:{meth}", line=c.lineno)
+    ctx.floor(rule, 4)
+
+
 def rules(ctx):
+    options(ctx)
     op_clone(ctx)
     undo(ctx)
     lock(ctx)
